@@ -412,6 +412,26 @@ def dist_shard(tier):
             l2, s2 = G(Normal.params_mv, G(Normal.mean, L), G(Normal.variance, S))
             chk("normal:params_mv-loc", case, float(l2), loc, 1e-9)
             chk("normal:params_mv-scale", case, float(s2), scale, 1e-9)
+    # ---- stated moments in float32 for small scales (closed forms evaluated in double with expm1; no cancellation allowed)
+    for loc in (-1.0, 0.0, 2.0):
+        for scale in (3e-2, 3e-3, 1e-3, 3e-4):
+            tally.add("evaluations")
+            case = {"dist": "LogNormal", "loc": loc, "scale": scale, "dtype": "float32"}
+            try:
+                L32, S32 = torch.tensor(loc), torch.tensor(scale)
+                v = float(G(LogNormal.variance, L32, S32))
+                m = float(G(LogNormal.mean, L32, S32))
+            except Exception as ex:
+                tally.violation(f"lognormal:f32:exception:{type(ex).__name__}", case, repr(ex))
+                continue
+            s2 = float(S32) ** 2
+            ev = math.expm1(s2) * math.exp(2 * loc + s2)
+            em = math.exp(loc + s2 / 2)
+            if abs(v - ev) > 1e-3 * ev:
+                tally.violation("lognormal:variance:float32-small-scale", case, f"variance {v}, closed form {ev} (relative error {abs(v - ev) / ev:.2e})", ev, v)
+            if abs(m - em) > 1e-5 * em:
+                tally.violation("lognormal:mean:float32-small-scale", case, f"mean {m}, closed form {em}", em, m)
+            tally.mark("nontrivial", ("lognormal-f32", loc, scale))
     # ---- LogNormal (integrate in log space: x = e^y)
     for loc in (-1.0, 0.0, 2.0):
         for scale in (0.25, 0.5, 1.0):
